@@ -227,6 +227,55 @@ def gen_filesink():
     return "FileSink.lean", "\n".join(out)
 
 
+def gen_e2e():
+    """The receive chains of the two AX.25 examples: block order and the parameters the digital back end depends on."""
+    out = ["/-! GENERATED by tools/extract.py from /repo/examples/ax25-1200-rx.rs and ax25-9600-rx.rs on every run:",
+           "the order of the processing blocks after the input selection, and their numeric parameters. Do not edit. -/",
+           "namespace RR.Gen", ""]
+    for fname, lname in [("ax25-1200-rx.rs", "rx1200"), ("ax25-9600-rx.rs", "rx9600")]:
+        src = strip_rust(open(os.path.join(REPO, "examples", fname)).read())
+        main = find_fn_free(src, "main")
+        names = ["Hilbert", "QuadratureDemod", "FastFM", "FftFilterFloat", "FftFilter", "FirFilter", "RationalResampler",
+                 "add_const", "AddConst", "SymbolSync", "ZeroCrossing", "BinarySlicer", "NrziDecode", "Descrambler",
+                 "HdlcDeframer", "Il2pDeframer"]
+        found = []
+        for n in names:
+            for m in re.finditer(r"(?<![A-Za-z_])%s(?:::<[^>]*>)?(?:::new|::new_g3ruh)?\s*\(" % n, main):
+                # skip the optional clock-output branch (AddConst on the clock stream) and input selection
+                ctx = main[max(0, m.start() - 200):m.start()]
+                if n == "AddConst" and "clock" in main[m.start():m.start() + 60]:
+                    continue
+                found.append((m.start(), n))
+        # a longer name that contains a shorter one (FftFilterFloat / FftFilter) is matched once
+        found.sort()
+        order = []
+        for pos, n in found:
+            if order and order[-1][0] == pos:
+                continue
+            order.append((pos, n))
+        seq = []
+        for pos, n in order:
+            if n == "FftFilter" and main[pos:pos + 14] == "FftFilterFloat":
+                continue
+            seq.append(n)
+        out.append("def %sChain : List String := [%s]" % (lname, ", ".join('"%s"' % n for n in seq)))
+        m = re.search(r"HdlcDeframer::new\(\s*\w+\s*,\s*(\d+)\s*,\s*(\d+)\s*\)", main)
+        if not m:
+            raise SystemExit("extract: HdlcDeframer::new(prev, min, max) not found in " + fname)
+        out.append(f"def {lname}HdlcMin : Nat := {m.group(1)}")
+        out.append(f"def {lname}HdlcMax : Nat := {m.group(2)}")
+        m = re.search(r"Descrambler::new\(\s*\w+\s*,\s*(0x[0-9a-fA-F]+|\d+)\s*,\s*(\d+)\s*,\s*(\d+)\s*\)", main)
+        if m:
+            out.append(f"def {lname}DescramblerMask : Nat := {int(m.group(1), 0)}")
+            out.append(f"def {lname}DescramblerSeed : Nat := {m.group(2)}")
+            out.append(f"def {lname}DescramblerLen : Nat := {m.group(3)}")
+        m = re.search(r"Hilbert::new\(\s*\w+\s*,\s*(\d+)", main)
+        if m:
+            out.append(f"def {lname}HilbertTaps : Nat := {m.group(1)}")
+    out += ["", "end RR.Gen", ""]
+    return "E2e.lean", "\n".join(out)
+
+
 def find_fn_free(src, name):
     m = re.search(r"\bfn\s+%s\s*\(" % name, src)
     if not m:
